@@ -60,6 +60,7 @@ type Val struct {
 	Binds []Val
 	Recv  *Val // bound method receiver
 	SubOf string // for pointers to embedded struct fields: "<struct type key>.<field>"
+	Local string // for pointers into a non-escaping local struct variable: key prefix of its private storage
 }
 
 func scalar(t Term, typ types.Type, k Kind) Val { return Val{K: k, T: t, Typ: typ} }
